@@ -129,8 +129,10 @@ def opPotrf : P String := do
   done
   let upper := u == 'u'
   let A := if upper then transpose A0 else A0
-  -- which scalar kernel runs: (row_major, lower) has `s <= 0`, the other one `Aii < 0`
-  let strict := upper == rowMajor
+  -- both scalar kernels reject a pivot `<= 0` (the (row_major, upper) kernel after the repair of
+  -- finding C02-potrf-zero-pivot-accepted; `infoOf true` models the unrepaired test `Aii < 0`)
+  let _ := rowMajor
+  let strict := false
   let small := n ≤ 5
   let L := cholCols (rsqrt small) n A
   let info := infoOf strict n A L
@@ -141,6 +143,96 @@ def opPotrf : P String := do
   let ap := if exact then "" else " approx"
   let f : Nat → Nat → Rat := if upper then fun i j => mget out j i else fun i j => mget out i j
   pure (s!"ok{ap} info=0" ++ showVals (flat n n f))
+
+def showPerm (n : Nat) (P : Nat → Nat) : String :=
+  " P=" ++ ",".intercalate ((List.range n).map fun i => toString (P i))
+
+def opGetrf : P String := do
+  let _ ← parseOr (← ch)
+  let n ← nat
+  let A := matFn n (← nums (n * n))
+  done
+  let s := getrf n A
+  if s.fail then pure "exc invalid_argument" else
+  pure ("ok" ++ showPerm n s.P ++ showVals (flat n n fun i j => mget s.M i j))
+
+/-- pivoted Cholesky with exact roots; `none` if some root was not exact and the system is not tiny -/
+def runPstrf (n : Nat) (A : Mat) : Option (PState × Bool) :=
+  let eps := pstrfEps n A
+  let s := pstrf (rsqrt false) eps n A
+  let rank := s.rank.getD n
+  let exact := (List.range rank).all fun j => mget s.M j j != 0
+  if exact then some (s, true)
+  else if n ≤ 5 then some (pstrf (rsqrt true) eps n A, false) else none
+
+def opPstrf : P String := do
+  let u ← ch
+  let _ ← parseOr (← ch)
+  let n ← nat
+  let A0 := matFn n (← nums (n * n))
+  done
+  let upper := u == 'u'
+  let A := if upper then transpose A0 else A0
+  match runPstrf n A with
+  | none => pure "skip"
+  | some (s, exact) =>
+    let rank := s.rank.getD n
+    let ap := if exact then "" else " approx"
+    let f : Nat → Nat → Rat := if upper then fun i j => mget s.M j i else fun i j => mget s.M i j
+    pure (s!"ok{ap} rank={rank}" ++ showPerm n s.P ++ showVals (flat n n f))
+
+def opSolve : P String := do
+  let tag ← word
+  let left ← parseSide (← ch)
+  let _ ← parseOr (← ch)
+  let kind ← ch
+  let _ ← ch
+  let n ← nat
+  let m0 ← nat
+  let A := matFn n (← nums (n * n))
+  let isVec := kind == 'v'
+  let m := if isVec then 1 else m0
+  let Bv ← nums (n * m)
+  done
+  -- right-hand side number k as a vector: column k (left) or row k (right); a vector rhs is k = 0
+  let rhs (k : Nat) : Vec :=
+    if isVec then vecFn Bv else if left then (fun i => Bv.getD (i * m + k) 0) else (fun i => Bv.getD (k * n + i) 0)
+  let finish (ap : String) (sol : Nat → Array Rat) : String :=
+    let cols := (List.range m).map sol |>.toArray
+    let X (k i : Nat) : Rat := vget (cols.getD k #[]) i
+    if isVec then "ok" ++ ap ++ showVals ((List.range n).map fun i => X 0 i)
+    else if left then "ok" ++ ap ++ showVals (flat n m fun i k => X k i)
+    else "ok" ++ ap ++ showVals (flat m n fun k i => X k i)
+  let tri (t : Tri) : String :=
+    if triSingular t n A && m > 0 then "exc invalid_argument" else finish "" fun k => trsvArr t left n A (rhs k)
+  match tag with
+  | "tl" => pure (tri ⟨false, false⟩)
+  | "tu" => pure (tri ⟨true, false⟩)
+  | "tul" => pure (tri ⟨false, true⟩)
+  | "tuu" => pure (tri ⟨true, true⟩)
+  | "spd" =>
+    let small := n ≤ 5
+    let L := cholCols (rsqrt small) n A
+    let exact := rootsExact n A L
+    if !exact && !small then pure "skip" else
+    pure (finish (if exact then "" else " approx") fun k => cholSolveArr n L (rhs k))
+  | "lu" =>
+    let s := getrf n A
+    if s.fail then pure "exc invalid_argument" else
+    pure (finish "" fun k => if left then luSolveLeftArr n s (rhs k) else luSolveRightArr n s (rhs k))
+  | "semi" =>
+    match runPstrf n A with
+    | none => pure "skip"
+    | some (s, exact) =>
+      let rank := s.rank.getD n
+      let small := n ≤ 5
+      let F : Mat := fun i j => mget s.M i j
+      let G : Mat := fun a c => sum n fun i => F i a * F i c
+      let C : Arr2 := if rank = n then #[] else cholCols (rsqrt small) rank G
+      let exact2 := rank = n || rootsExact rank G C
+      if !exact2 && !small then pure "skip" else
+      pure (finish (if exact && exact2 then "" else " approx") fun k => semiApplyArr n (s, C) (rhs k))
+  | _ => pure "skip"
 
 def step (line : String) : String :=
   let toks := ((line.trimAscii.toString.splitOn " ").filter (· ≠ "")).toArray
@@ -153,6 +245,9 @@ def step (line : String) : String :=
   | "trsv" => run opTrsv
   | "trsm" => run opTrsm
   | "potrf" => run opPotrf
+  | "getrf" => run opGetrf
+  | "pstrf" => run opPstrf
+  | "solve" => run opSolve
   | _ => "skip"
 
 partial def loop (h : IO.FS.Stream) (out : IO.FS.Stream) : IO Unit := do
